@@ -92,8 +92,10 @@ def gen_case(rng, cfg, idx):
                 ev.append(("clear", rng.choice(others + shared)))
             elif c < 0.7:
                 ev.append(("inplace", rng.choice(shared + leaves)))
-            elif c < 0.9:
+            elif c < 0.84:
                 ev.append(("reuse", rng.choice(shared + leaves)))
+            elif c < 0.9:
+                ev.append(("failcall", rng.choice(shared + leaves)))
             else:
                 ev.append(("view", rng.choice(shared + leaves)))
     rec = len(b.prog)   # everything up to here defines L's recorded forward computation
@@ -115,6 +117,15 @@ def gen_case(rng, cfg, idx):
                     b.prog[-1]["sp"] = "mg"
         elif kind == "reuse":
             b.call(rng.choice(["multiply", "add"]), [B.R(t), round(rng.uniform(2, 5), 1)], sp=rng.choice(["mg", "op"]), prefix="z")
+        elif kind == "failcall":
+            # a call on the shared tensor that FAILS (before / inside the kernel, or while its result is wrapped): it must not count as re-use
+            how = rng.choice(["late", "late", "shape"])
+            if how == "late":
+                b.prog.append({"k": "call", "out": "__f", "fn": rng.choice(["multiply", "add"]), "a": [B.R(t), 2.0], "kw": {"dtype": ["dt", "complex64"]},
+                               "sp": "mg", "expect_raise": True})
+            else:
+                bad = enc_arr(np.ones(tuple(d + 2 for d in np.shape(b.val(t))) + (3,)))
+                b.prog.append({"k": "call", "out": "__f", "fn": "add", "a": [B.R(t), bad], "sp": "mg", "expect_raise": True})
         elif kind == "view":
             GI.s_view(b, t)
     b.prog.append({"k": "backward", "tgt": final, "seed": None})
@@ -125,7 +136,7 @@ def upstream_names(env, L):
     ids = {}
     for n, v in env.items():
         if mgrun.is_tensor(v):
-            ids[id(v)] = n
+            ids.setdefault(id(v), []).append(n)     # (one tensor object may carry several names: atleast_kd(x) can be x itself)
     seen, out, stack = set(), set(), [env[L]]
     while stack:
         x = stack.pop()
@@ -133,7 +144,7 @@ def upstream_names(env, L):
             continue
         seen.add(id(x))
         if id(x) in ids:
-            out.add(ids[id(x)])
+            out.update(ids[id(x)])
         if x._creator is not None:
             stack += list(x._creator.variables)
         if x._base is not None:
@@ -212,6 +223,14 @@ def run_case(case):
             o = sh.owner.get(st["tgt"])
             mutated |= {n for n, oo in sh.owner.items() if oo == o}
     events = [st["k"] + ("!" if i in it.raised else "") for i, st in enumerate(prog[rec:-1], start=rec)]
+    # was any tensor of L's recorded graph SUCCESSFULLY used again (new operation or in-place update) after the first clear / backward?
+    reused_ok = False
+    fc_ = next((i for i in range(rec, len(prog) - 1) if prog[i]["k"] in ("backward", "clear")), None)
+    if fc_ is not None:
+        for i in range(fc_ + 1, len(prog) - 1):
+            if i not in it.raised and prog[i]["k"] in ("call", "setitem", "aug", "uout", "setshape") and (set(mgrun.stmt_refs(prog[i])) & set(up)):
+                reused_ok = True
+                break
     const_mut_after_clear = False
     first_clear = next((i for i in range(rec, len(prog) - 1) if prog[i]["k"] in ("backward", "clear")), None)
     if first_clear is not None:
@@ -278,7 +297,8 @@ def run_case(case):
                              # the known finding needs: detection defeated by re-use, an acyclic graph, and (for a retry) re-use between
                              # the refusal and the retry. (Cleared parts of the graph are then silently skipped, so missing / partial
                              # gradients occur even when no value was changed in place.)
-                             "defeated": bool(defeated and not cyclic and (not cnt.get("returned_on_retry") or cnt.get("reused_before_retry"))),
+                             "defeated": bool(defeated and not cyclic and (reused_ok or cnt.get("reused_before_retry"))
+                                              and (not cnt.get("returned_on_retry") or cnt.get("reused_before_retry"))),
                              # second known mechanism: a CONSTANT tensor of L's recorded graph was updated in place after another graph's
                              # backward()/clear_graph() had emptied its consumer list (constants are exempt from the cleared-graph test)
                              "const_mutated_after_clear": bool(const_mut_after_clear),
